@@ -62,7 +62,9 @@ def run(tier, v):
         args = ["ammofmt", "-in", ",".join(batch), "-out", trace, "-maxentries", "40", "-maxbody", "2000"]
         if i == 0:
             args += ["-random", str(nrand), "-mode", "c14"]
-        vlib.run_driver(b, args, timeout=3000)
+        if not al.run_cases(v, b, args):
+            bad += 1
+            continue
         rows, ts, nb = al.validate(v, trace, sig, "real provider diverges from AmmoFormats.ExpectedSel",
                                    heap="16g" if thorough else "6g", workers=16 if thorough else 8, timeout=3000, case_files=batch)
         tstates += ts
@@ -79,7 +81,7 @@ def run(tier, v):
     cov = {
         "states": states, "transitions": trans,
         "traces_validated_against_impl": total,
-        "samples": samples[:6],
+        "samples": samples[:6] or [{"driver": "crashed, see the violation"}],
         "exhaustive": True,
         "evaluations": total,
         "distinct_nontrivial": sum(s["from_tlc"] for s in stats),
